@@ -6,7 +6,11 @@ Extracted on every run from
   sudachi/src/plugin/oov/simple_oov/mod.rs  provide_oov(): guard
   sudachi/src/plugin/oov/regex_oov/mod.rs   strict boundary test, default max length
   sudachi/src/analysis/created.rs           MAX_VALUE, Maybe threshold comparison, debug assertion of single()
-  sudachi/src/analysis/stateful_tokenizer.rs build_lattice(): class gate of the provider loop, fallback provider
+  sudachi/src/analysis/stateful_tokenizer.rs build_lattice(): class gate of the provider loop, fallback provider;
+                                            resolve_best_path(): the word info made for an OOV node
+  sudachi/src/dic/word_id.rs                packing of (dictionary, word) into a WordId, the OOV dictionary id
+  sudachi/src/dic/lexicon/word_infos.rs     fallbacks of normalized_form / dictionary_form / reading_form
+  sudachi/src/analysis/morpheme.rs          dictionary_id, is_oov, part_of_speech_id
 """
 import re
 import facts as F
@@ -18,6 +22,9 @@ REGEX = "sudachi/src/plugin/oov/regex_oov/mod.rs"
 CREATED = "sudachi/src/analysis/created.rs"
 TOK = "sudachi/src/analysis/stateful_tokenizer.rs"
 CAT = "sudachi/src/dic/category_type.rs"
+WID = "sudachi/src/dic/word_id.rs"
+WINFO = "sudachi/src/dic/lexicon/word_infos.rs"
+MORPH = "sudachi/src/analysis/morpheme.rs"
 
 
 def cat_env():
@@ -245,6 +252,86 @@ def gen():
     fact("lattice_loop_recognised", "bool", "true", loop_shape)
     fact("lexicon_end_needs_bow", "bool", "true",
          lambda: "true" if re.search(r"if \(e\.end < input_bytes\.len\(\)\) && !self\.input\.can_bow\(e\.end\) \{ continue; \}", tk()) else "false")
+
+    # ---- OOV morphemes: word id packing, the word info of an OOV node, accessor fallbacks
+    def wid():
+        return norm(F.strip_comments(F.src(WID)))
+
+    fact("word_mask", "N", F.coq_int(0x0fffffff), lambda: F.coq_int(F.find_const(WID, "WORD_MASK")))
+
+    def dic_shift():
+        m1 = re.search(r"let dic_part = \(\(dic & 0xf\) as u32\) << (\d+);", wid())
+        m2 = re.search(r"pub fn dic\(&self\) -> u8 \{ return \(self\.raw >> (\d+)\) as u8; \}", wid())
+        if not m1 or not m2 or m1.group(1) != m2.group(1):
+            raise F.FactError("dictionary part of WordId::new / WordId::dic not recognised or inconsistent")
+        if "let word_part = word & WORD_MASK; let raw = dic_part | word_part;" not in wid():
+            raise F.FactError("word part of WordId::new changed")
+        if "pub fn word(&self) -> u32 { return self.raw & WORD_MASK; }" not in wid():
+            raise F.FactError("WordId::word changed")
+        return m1.group(1) + "%N"
+    fact("word_id_dic_shift", "N", "28%N", dic_shift)
+
+    def oov_dic():
+        m1 = re.search(r"pub fn oov\(pos_id: u32\) -> WordId \{ Self::new\((0x[0-9a-fA-F]+|\d+), pos_id\) \}", wid())
+        m2 = re.search(r"pub fn is_oov\(&self\) -> bool \{ self\.dic\(\) == (0x[0-9a-fA-F]+|\d+) \}", wid())
+        if not m1 or not m2 or int(m1.group(1), 0) != int(m2.group(1), 0):
+            raise F.FactError("WordId::oov / WordId::is_oov not recognised or inconsistent")
+        return F.coq_int(int(m1.group(1), 0))
+    fact("oov_dic_id", "N", "15%N", oov_dic)
+
+    def coq_pairs(ps):
+        return "[%s]" % "; ".join('("%s", "%s")' % p for p in ps)
+
+    def oov_info():
+        body = norm(F.strip_comments(F.fn_body(F.src(TOK), "resolve_best_path", TOK)))
+        m = re.search(r"let wi = if inner\.word_id\(\)\.is_oov\(\) \{ (.*?)WordInfoData \{ (.*?) \.\.Default::default\(\) \} \.into\(\) \} else \{", body)
+        if not m:
+            raise F.FactError("OOV branch of resolve_best_path not recognised")
+        lets = dict(re.findall(r"let (\w+) = ([^;]+);", m.group(1)))
+        fields = []
+        for name, expr in re.findall(r"(\w+): ([^,]+),", m.group(2)):
+            expr = lets.get(expr.strip(), expr.strip())
+            if expr == "inner.word_id().word() as u16":
+                fields.append((name, "word_id.word:u16"))
+            elif expr == "self.input.curr_slice_c(inner.char_range()).to_owned()":
+                fields.append((name, "curr_slice_c"))
+            elif expr == "self.input.orig_slice_c(inner.char_range()).to_owned()":
+                fields.append((name, "orig_slice_c"))
+            else:
+                raise F.FactError("field %s of the OOV word info is built from an unrecognised expression %r" % (name, expr))
+        return coq_pairs(fields)
+    out.append("(* fields of the WordInfoData made for an OOV node of the best path (everything else is Default) *)\n")
+    fact("oov_info_fields", "list (string * string)", coq_pairs([("pos_id", "word_id.word:u16"), ("surface", "curr_slice_c")]), oov_info)
+
+    def fallbacks():
+        t = norm(F.strip_comments(F.src(WINFO)))
+        res = []
+        for f in ("normalized_form", "dictionary_form", "reading_form"):
+            m = re.search(r"pub fn %s\(&self\) -> &str \{ if self\.data\.%s\.is_empty\(\) \{ self\.(\w+)\(\) \} else \{ &self\.data\.%s \} \}" % (f, f, f), t)
+            if not m:
+                raise F.FactError("WordInfo::%s not recognised" % f)
+            res.append((f, m.group(1)))
+        if "pub fn surface(&self) -> &str { &self.data.surface }" not in t or "pub fn pos_id(&self) -> u16 { self.data.pos_id }" not in t:
+            raise F.FactError("WordInfo::surface / pos_id changed")
+        return coq_pairs(res)
+    out.append("(* what the form accessors of WordInfo return when the stored form is empty *)\n")
+    fact("form_fallbacks", "list (string * string)",
+         coq_pairs([("normalized_form", "surface"), ("dictionary_form", "surface"), ("reading_form", "surface")]), fallbacks)
+
+    def dict_id():
+        t = norm(F.strip_comments(F.src(MORPH)))
+        m = re.search(r"pub fn dictionary_id\(&self\) -> i32 \{ let wid = self\.word_id\(\); if wid\.is_oov\(\) \{ (-?\d+) \} else \{ wid\.dic\(\) as i32 \} \}", t)
+        if not m:
+            raise F.FactError("Morpheme::dictionary_id not recognised")
+        for needle in ("pub fn is_oov(&self) -> bool { self.word_id().is_oov() }",
+                       "pub fn part_of_speech_id(&self) -> u16 { self.node().word_info().pos_id() }",
+                       "pub fn dictionary_form(&self) -> &str { &self.get_word_info().dictionary_form() }",
+                       "pub fn normalized_form(&self) -> &str { &self.get_word_info().normalized_form() }",
+                       "pub fn reading_form(&self) -> &str { &self.get_word_info().reading_form() }"):
+            if needle not in t:
+                raise F.FactError("Morpheme accessor changed: %s" % needle[:40])
+        return "(%s)%%Z" % m.group(1)
+    fact("oov_dictionary_id", "Z", "(-1)%Z", dict_id)
     out.append("(* facts whose source shape was not recognised (replaced above by the value the property statement assumes) *)\n")
     out.append("Definition unrecognised : list string := [%s].\n" % "; ".join('"%s"' % b for b in bad))
     return "".join(out)
